@@ -104,3 +104,50 @@ Section RunTie.
     rewrite for_list_hook. reflexivity.
   Qed.
 End RunTie.
+
+(* ---- C08 stated about the GENERATED Algorithm.run (MaxEvaluations condition, hooks = folds of the per-extension
+   hooks over the extension list): for every state type, step and extensions that are well behaved (Props/C08.v),
+   the definition produced from the source text terminates within fuel N, stops at the FIRST step boundary at which
+   the evaluations counted since the call reach N, and run(0) makes no step.  The second component of the result
+   is the condition object after initialize() (starting nfe, budget). ---- *)
+From PV Require Import Proofs.RunLoopProofs Props.C08.
+
+Section C08_generated.
+  Variables St Ext : Type.
+  Variables nfe calls : St -> nat.
+  Variable exts : St -> list Ext.
+  Variables e_start e_pre e_post e_end : Ext -> St -> St.
+  Variables alg_step callback : St -> St.
+  Variable Inv : St -> Prop.
+  Notation h_start := (hooks St Ext exts e_start).
+  Notation h_end := (hooks St Ext exts e_end).
+  Notation h_pre := (hooks St Ext exts e_pre).
+  Notation h_post := (hooks St Ext exts e_post).
+  Hypothesis WB : well_behaved St nfe calls h_start h_end h_pre h_post alg_step callback Inv.
+  Notation gen_run N s c0 :=
+    (Core.Algorithm_run St Ext (nat * nat) N exts e_start e_pre e_post e_end alg_step
+                        (me_initialize St nfe) (me_call St nfe) callback s (c0, N%nat)).
+  Notation iter := (RunLoop.iter St h_pre h_post alg_step callback).
+
+  Theorem tie_c08_generated_run_stops_first : forall N s c0, Inv s ->
+    exists k, gen_run N s c0 = Some (h_end (iter k (h_start s)), (nfe s, N))
+              /\ (k <= N)%nat
+              /\ (N <= nfe (iter k (h_start s)) - nfe s)%nat
+              /\ (forall j, (j < k)%nat -> (nfe (iter j (h_start s)) - nfe s < N)%nat).
+  Proof.
+    intros N s c0 HI.
+    destruct (c08_run_stops_first St nfe calls h_start h_end h_pre h_post alg_step callback Inv WB N s HI)
+      as [k [Hr [Hk [Hge Hlt]]]].
+    exists k. rewrite tie_run, Hr. repeat split; assumption.
+  Qed.
+
+  Theorem tie_c08_generated_run_zero : forall s c0,
+    gen_run 0%nat s c0 = Some (h_end (h_start s), (nfe s, 0%nat)).
+  Proof.
+    intros s c0. rewrite tie_run.
+    rewrite (c08_run_zero St nfe h_start h_end h_pre h_post alg_step callback s). reflexivity.
+  Qed.
+End C08_generated.
+
+Print Assumptions tie_c08_generated_run_stops_first.
+Print Assumptions tie_c08_generated_run_zero.
